@@ -215,6 +215,10 @@ func (h *dnsCryptHandler) ServeDNS(rw dnscrypt.ResponseWriter, r *dns.Msg) (err 
 	ctx, cancel := h.srv.requestContext()
 	defer cancel()
 
+	// The dnscrypt module does not recover from panics in its per-request
+	// goroutines, so do it here as the other servers do.
+	defer h.srv.handlePanicAndRecover(ctx)
+
 	ctx = ContextWithRequestInfo(ctx, &RequestInfo{StartTime: time.Now()})
 
 	nrw := NewNonWriterResponseWriter(rw.LocalAddr(), rw.RemoteAddr())
